@@ -257,3 +257,4 @@ Arguments pub {St} w.
 Arguments locked {St} w.
 Arguments txns {St} w.
 Arguments init {St} s.
+Arguments is_panic {wout rout} o.
